@@ -206,6 +206,16 @@ func (ss *Package) buildOneofSchema(srcMsg protoreflect.MessageDescriptor, _ *ex
 		// TODO: Rules
 	}
 
+	// The options of a oneof are the fields of the message, which only works
+	// when proto itself keeps them exclusive.
+	for ii := 0; ii < srcMsg.Fields().Len(); ii++ {
+		field := srcMsg.Fields().Get(ii)
+		inOneof := field.ContainingOneof()
+		if inOneof == nil || inOneof.IsSynthetic() || inOneof != srcMsg.Oneofs().Get(0) {
+			return nil, fmt.Errorf("message %s is a oneof wrapper, but field %s is not in its oneof", srcMsg.FullName(), field.Name())
+		}
+	}
+
 	properties, err := ss.messageProperties(oneofSchema, srcMsg)
 	if err != nil {
 		return nil, fmt.Errorf("properties of %s: %w", srcMsg.FullName(), err)
